@@ -4,12 +4,10 @@ use super::*;
 
 // ---- clear: everything gone, size 0, cache usable --------------------------------------------------
 fn body_clear(mut c: LruCache<u8, SV, BH>) {
-    let cap = c.capacity();
     c.clear();
     coherent(&c);
     assert!(c.len() == 0 && c.current_size() == 0 && c.is_empty());
     assert!(c.seal.get().next == c.seal && c.seal.get().prev == c.seal);
-    assert!(c.capacity() >= cap);
     // usable afterwards
     link_new(&mut c, UnhingedEntry::new(5u8, SV(2)));
     coherent(&c);
